@@ -14,6 +14,7 @@ AsSet(s) == {s[i] : i \in DOMAIN s}
 
 (* what the code serves after the step, judged against the specification's post-state *)
 Observed(r) ==
+  /\ ev.lost = 0                                                  \* nothing stored under a surviving local ref disappears
   /\ AsSet(ev.git) = have'[r]                                    \* the bugs with a local ref are the specification's
   /\ (staged'[r] = {}) =>        \* quiescent after the step (not Quiescent(r)': priming would also prime the argument)
        /\ AsSet(ev.live) = have'[r]                              \* the live cache lists exactly them
